@@ -38,6 +38,7 @@ func (f *Frame) call(st *State, r *Term, site ssa.Instruction, cc *ssa.CallCommo
 			callee, bindings = cv.Fn, cv.Bindings
 		} else {
 			f.check("safe", "nil-func-call:"+describe(cc.Value), r, Neq(v, IntLit(0)), pos)
+			f.fieldFnCallPre(st, r, cc, args, pos)
 			if ftKey, nt := functypeKey(f.subst(cc.Value.Type())); nt != nil {
 				if ct := f.ctx.eng.contracts.Funcs[ftKey]; ct != nil {
 					return f.functypeCall(st, r, ct, nt, args, pos)
@@ -566,6 +567,12 @@ func (e *Engine) effectsOf(callee *ssa.Function, caller *Frame) *effects {
 				if sc == nil {
 					if _, isParam := cc.Value.(*ssa.Parameter); isParam {
 						if ct := e.contracts.Funcs[funcKey(fn)]; ct != nil && ct.PureCallbacks {
+							continue
+						}
+					}
+					if ftKey, nt := functypeKey(pf.subst(cc.Value.Type())); nt != nil {
+						if ct := e.contracts.Funcs[ftKey]; ct != nil && ct.ModifiesSet {
+							pf.functypeMods(ct, nt, ms)
 							continue
 						}
 					}
